@@ -51,6 +51,13 @@ def enc_check(config, codec, hexbm, msg, default_cfg=False):
         return 'encode-differs:' + where, (f'dumps output differs from the reference layout at byte {i} ({where}); '
                                            f'got {got[max(0, i - 6):i + 10]!r} want {want[max(0, i - 6):i + 10]!r}; '
                                            f'message {c01._short(msg)} codec={codec} hex={hexbm}')
+    # the bytes are a function of the message: the same message encoded again (a fresh, equal dict) gives the same bytes
+    try:
+        again = iso8583.dumps(copy.deepcopy(msg), **kw)
+    except Exception as ex:
+        return exc_sig('dumps-raises:on-repeat', ex), f'dumps raised {ex!r} when the same message was encoded a second time; {c01._short(msg)}'
+    if again != got:
+        return 'encode-differs:on-repeat', f'dumps gives different bytes for the same message the second time; message {c01._short(msg)} codec={codec} hex={hexbm}'
     return None
 
 
@@ -70,6 +77,13 @@ def dec_check(config, codec, hexbm, data, default_cfg=False):
     why = refcodec.compare(ref.values, got, set())
     if why:
         return 'decode-differs:' + why.split(':')[0].split(' ')[0], f'loads differs from the independent reading: {why}; bytes {data[:120]!r} codec={codec} hex={hexbm}'
+    try:
+        again = iso8583.loads(bytes(bytearray(data)), **kw)       # an equal but distinct bytes object
+    except Exception as ex:
+        return exc_sig('loads-raises:on-repeat', ex), f'loads raised {ex!r} when the same bytes were decoded a second time'
+    why = refcodec.compare(ref.values, again, set())
+    if why:
+        return 'decode-differs:on-repeat', f'loads differs from the independent reading when the same bytes are decoded a second time: {why}'
     return None
 
 
